@@ -65,6 +65,14 @@ def unjson(x):
 _SYS = None
 
 
+def _unexpected(e, where):
+    """an exception nobody anticipated escaped from the library while a state was examined: that is a verdict about the
+    library (on the unchanged tree it never happens), not a harness crash"""
+    import traceback
+    return dict(check="unexpected_exception", sig=dict(check="unexpected_exception", where=where),
+                msg=f"{where}: {type(e).__name__}: {e!r:.120}", detail=dict(trace=traceback.format_exc()[-600:]))
+
+
 def _expand(chunk):
     """worker: expand a chunk [(idx, snap, model)] -> results, stats delta"""
     sysm = _SYS
@@ -78,13 +86,21 @@ def _expand(chunk):
         k, nsl = item[3] if len(item) > 3 else (0, 1)
         # a state's events may be split into nsl strided slices (few states with very many events each); slice 0 also
         # evaluates the state invariants
-        sv = sysm.state_check(snap, model) if k == 0 else []
+        try:
+            sv = sysm.state_check(snap, model) if k == 0 else []
+        except Exception as e:  # noqa
+            sv = [_unexpected(e, "state invariants")]
         succ = []
         if not sv:
             for ei, ev in enumerate(sysm.events(snap, model)):
                 if ei % nsl != k:
                     continue
-                st = sysm.step(snap, model, ev)
+                try:
+                    st = sysm.step(snap, model, ev)
+                except HarnessError:
+                    raise
+                except Exception as e:  # noqa
+                    st = Step(None, model, [_unexpected(e, "transition")])
                 if st is None:  # event not enabled
                     continue
                 c = sysm.canon(st.snap) if st.snap is not None else None
